@@ -1,0 +1,82 @@
+//go:build verif
+
+// Contracts for package gradtrack, read by /verif/qv (comment-only file; contains no executable code).
+
+package gradtrack
+
+//@ define opnd(x) := x != nil && x.gctx != nil
+//@ define newCtx1(g, x) := g != nil && g.gradient == nil && g.bpdirty == dirtyT(x) && g.tracked == (!dirtyT(x) && trkT(x))
+//@ define newCtx2(g, a, b) := g != nil && g.gradient == nil && g.bpdirty == (dirtyT(a) || dirtyT(b))
+//@                            && g.tracked == (!dirtyT(a) && !dirtyT(b) && (trkT(a) || trkT(b)))
+//@ define edgeTo(g, k, y, x) := g.backEdges[k] != nil && g.backEdges[k].target == x && g.backEdges[k].gradFn != nil
+//@                            && tgtOf(g.backEdges[k].gradFn) == x && srcOf(g.backEdges[k].gradFn) == y
+//@ define edges1(g, y, x) := ite(g.tracked, len(g.backEdges) == 1 && edgeTo(g, 0, y, x), len(g.backEdges) == 0)
+//@ define edges2(g, y, a, b) := ite(g.tracked, len(g.backEdges) == 2 && edgeTo(g, 0, y, a) && edgeTo(g, 1, y, b), len(g.backEdges) == 0)
+
+// The protocol of a back-edge function (DESIGN.md C01): when it is invoked, the gradient of the edge's source is
+// complete (non-nil, of the source's shape, itself a spent untracked tensor), and the target has been marked spent.
+//@ abstract chainGradFunc() (g tensor.Tensor, err error)
+//@   requires chainPre(srcOf(self)) && tgtOf(self) != nil && tgtOf(self).gctx != nil && dirtyT(tgtOf(self))
+//@   ensures[C01,C08] imp(err == nil, isGrad(g) && sameShape(g, tgtOf(self)))
+
+/* ---------------- gradtrack.go ---------------- */
+
+//@ func NewGradContext
+//@   returns fresh
+//@   ensures[C08] gctx != nil && gctx.tracked == tracked && !gctx.bpdirty && gctx.gradient == nil && len(gctx.backEdges) == 0
+
+//@ func NewDirtyGradContext
+//@   returns fresh
+//@   ensures[C08] gctx != nil && !gctx.tracked && gctx.bpdirty && gctx.gradient == nil && len(gctx.backEdges) == 0
+
+//@ func GradContext.Gradient
+//@   ensures g == gctx.gradient
+
+//@ func gradContextOf
+//@   requires t != nil && t.gctx != nil
+//@   ensures gctx == t.gctx
+
+//@ func anyIsBPDirty
+//@   requires forall(k, 0, len(ts), opnd(ts[k]))
+//@   ensures[C08] ok == exists(k, 0, len(ts), dirtyT(ts[k]))
+//@   loop 0 invariant forall(k, 0, _i0, !dirtyT(ts[k]))
+
+//@ func nonIsTracked
+//@   requires forall(k, 0, len(ts), opnd(ts[k]))
+//@   ensures[C08] ok == forall(k, 0, len(ts), !trkT(ts[k]))
+//@   loop 0 invariant forall(k, 0, _i0, !trkT(ts[k]))
+
+/* ---------------- gradient_helpers.go ---------------- */
+
+//@ func toZeros
+//@   requires tinv(t)
+//@   returns fresh
+//@   ensures o != nil && sameShape(o, t) && forallJ(J, imp(inb(o, J), el(o, J) == 0)) && ctx1(o, t)
+
+//@ func toOnes
+//@   requires tinv(t)
+//@   returns fresh
+//@   ensures o != nil && sameShape(o, t) && forallJ(J, imp(inb(o, J), el(o, J) == 1)) && ctx1(o, t)
+
+//@ func reducerBroadcasted
+//@   requires tinv(y) && tinv(x) && 0 <= dim && dim < rank(x) && redShape(y, x, dim)
+//@   returns fresh
+//@   ensures err == nil && o != nil && sameShape(o, x) && ctx1(o, y)
+//@   ensures forallJ(J, imp(inb(o, J), el(o, J) == el(y, del(J, dim))))
+
+/* ---------------- gradients.go: rules that need loops ---------------- */
+
+// C07 (shape, success and tracking part; the value - sum over the copies - is decided by the bounded stand-in)
+//@ func Broadcast#0
+//@   source y
+//@   target x
+//@   implements gradtrack.chainGradFunc
+//@   requires opnd(x)
+//@   requires rank(x) <= rank(y) && forall(k, 0, rank(x), dim(x, k) == dim(y, k + rank(y) - rank(x)) || dim(x, k) == 1)
+//@   ensures[C07,C02] err == nil && o != nil && sameShape(o, x) && isGrad(o)
+//@   loop 0 invariant 0 <= i && i <= ldd - lds && err == nil && isGrad(gy) && rank(gy) == ldd - i
+//@   loop 0 invariant forall(k, 0, rank(gy), dim(gy, k) == dstDims[k + i])
+//@   loop 0 decreases ldd - lds - i
+//@   loop 1 invariant i - j == ldd - lds && 0 <= j && j <= lds && err == nil && isGrad(gy) && rank(gy) == lds
+//@   loop 1 invariant forall(k, 0, j, dim(gy, k) == srcDims[k]) && forall(k, j, lds, dim(gy, k) == dstDims[k + ldd - lds])
+//@   loop 1 decreases ldd - i
